@@ -50,6 +50,10 @@ pub struct H2Case {
     /// decoding fails *after* the block has already changed the decoder's state. Never set by C16 itself.
     #[serde(default)]
     pub hostile_tail: Vec<u8>,
+    /// adversarial: bits flipped in the flags octet of the first HEADERS frame after it has been built (PADDED / PRIORITY claimed
+    /// without their octets, END_HEADERS removed ...). Never set by C16 itself.
+    #[serde(default)]
+    pub flag_xor: u8,
 }
 
 impl H2Case {
@@ -64,7 +68,10 @@ impl H2Case {
         let mut table = DynTable::new();
         let mut blk = h2::encode_block(&self.block, &mut table);
         blk.extend_from_slice(&self.hostile_tail);
-        for f in h2::headers_frames(&blk, &self.framing) {
+        for (i, mut f) in h2::headers_frames(&blk, &self.framing).into_iter().enumerate() {
+            if i == 0 && f.len() > 4 {
+                f[4] ^= self.flag_xor;
+            }
             out.extend(f);
         }
         if let Some(b) = &self.body {
@@ -381,7 +388,7 @@ pub fn h2_case() -> impl Strategy<Value = H2Case> {
                     pre.insert(0, PreFrame::Settings(vec![(3, 100)]));
                 }
             }
-            H2Case { request, block, framing, pre, body, hostile_tail: vec![] }
+            H2Case { request, block, framing, pre, body, hostile_tail: vec![], flag_xor: 0 }
         })
 }
 
@@ -463,7 +470,7 @@ pub fn run(ctx: &Ctx) {
         } else {
             fields.push(f(name, the_value, if literal_value { Repr::LiteralNotIndexed } else { Repr::PreferIndexed }));
         }
-        let c = H2Case { request, block: Block { size_updates: vec![], fields }, framing: h2::HeadersFraming { stream: 1, end_stream: true, pad: None, priority: None, splits: vec![], reserved_bit: false }, pre: vec![], body: None, hostile_tail: vec![] };
+        let c = H2Case { request, block: Block { size_updates: vec![], fields }, framing: h2::HeadersFraming { stream: 1, end_stream: true, pad: None, priority: None, splits: vec![], reserved_bit: false }, pre: vec![], body: None, hostile_tail: vec![], flag_xor: 0 };
         if let Err(fl) = check(&c, st) {
             st.fail(Fail::new(format!("static-entry-{}:{}", entry + 1, fl.what), fl.detail), json!({"entry": entry + 1, "name": name, "literal_value": literal_value, "request": request}));
         }
